@@ -70,6 +70,8 @@ class Emulation:
             yield {"kind": "config", "seed": seed * 65537 + i}
         for i in range(40 if tier == "quick" else 600):
             yield {"kind": "extend", "seed": seed * 65537 + i}
+        for i in range(6 if tier == "quick" else 40):
+            yield {"kind": "modeorder", "seed": seed * 65537 + i}
 
     def nontrivial(self, inp):
         return True
@@ -96,7 +98,34 @@ class Emulation:
             return self.check_alias(inp)
         if inp["kind"] == "extend":
             return self.check_extend(inp)
+        if inp["kind"] == "modeorder":
+            return self.check_modeorder(inp)
         return self.check_config(inp)
+
+    def check_modeorder(self, inp):
+        """the contributions of several modes arrive in command-line order (include paths and -include files are ordered
+        lists; the first definition of a macro wins), for every order of the flags and in every process"""
+        rng = random.Random(inp["seed"])
+        names = rng.sample(["alpha", "beta", "gamma", "delta", "omega", "zeta"], 3)
+        modes = [{"name": n, "defines": [f"BACKEND={i}"], "include_paths": [f"inc_{n}"], "include_files": [f"{n}.h"]} for i, n in enumerate(names)]
+        parser = [{"flags": ["-m" + n], "action": "append_const", "dest": "modes", "const": n} for n in names]
+        comp = {"mycc": {"parser": parser, "modes": modes}}
+        orders = [list(p) for p in itertools.permutations(names)]
+
+        def run():
+            out = []
+            for order in orders:
+                cfgs = config.ArgumentParser("mycc").parse_args(["-m" + n for n in order])
+                d = [c for c in cfgs if c.pass_name == "default"][0]
+                out.append((list(d.include_paths), list(d.include_files), list(d.defines)))
+            return out
+        got = self.in_dir(comp, run)
+        for order, (ip, inc, df) in zip(orders, got):
+            want = ([f"inc_{n}" for n in order], [f"{n}.h" for n in order], [f"BACKEND={names.index(n)}" for n in order])
+            if (ip, inc, df) != want:
+                return {"argv": ["mycc"] + ["-m" + n for n in order], "expected": f"contributions in command-line order {want}",
+                        "observed": (ip, inc, df), "klass": "emulation:mode-contributions-out-of-command-line-order"}
+        return None
 
     BUILTIN_FLAGS = {"nvcc": [["-fopenmp"], ["--gpu-architecture", "sm_80"], ["--gpu-code", "sm_75"], ["-gencode", "arch=compute_90,code=sm_90"]],
                      "gcc": [["-fopenmp"]], "g++": [["-fopenmp"]], "clang": [["-fopenmp"]], "clang++": [["-fopenmp"]],
